@@ -299,7 +299,7 @@ func TestC04_Timers(t *testing.T) {
 	rec := evid.For("C04")
 	rec.SetRule("rapid state machine on one IO with 2..4 timers and one socket object: ScheduleOnce/ScheduleRepeating (delays <=0 and 1..15 ms), Cancel, Close, Scheduled, NewTimer (descriptor reuse), sleep, poll, peer write to the socket (an I/O entry in the same batch); every callback runs a generated handler program that cancels/closes/re-schedules itself or ANOTHER timer; oracle = per-timer model with schedule ids: callback only for the live schedule, elapsed >= delay - 50us (monotonic), once fires <=1, repeats >= interval apart and stop after cancel (also from inside), return values, closed timers stay dead, Scheduled()==model, and liveness: after sleeping past every deadline +5 ms at most 3 PollOne run every due callback; non-trivial = a handler touched a different timer that was armed (cross-touch), or close->(cancel|schedule) on one timer, or a repeating timer cancelled from its own callback; distinct = hash of the trace")
 	rec.Assume("a repeating timer is not re-scheduled from inside its own callback unless it was cancelled there first; real time: 1..15 ms delays, tolerance 50 us, liveness margin 5 ms")
-	vt.CheckSteps(t, 120, 25, func(rt *rapid.T) {
+	vt.CheckSteps(t, 300, 25, func(rt *rapid.T) {
 		ioc, err := sonic.NewIO()
 		if err != nil {
 			rt.Fatalf("INFRA: NewIO: %v", err)
@@ -369,6 +369,29 @@ func TestC04_Timers(t *testing.T) {
 				}
 				w.timers = append(w.timers, &timerModel{t: tm})
 				w.log("top:NewTimer=t%d", len(w.timers)-1)
+			},
+			"raceRearm": func(rt *rapid.T) {
+				// two idle timers expire in the same poll cycle; the handler of the one that expires first cancels and
+				// re-arms (or just cancels, or closes) the other one, whose batch entry is still to be processed
+				var idle []int
+				for i, m := range w.timers {
+					if m.state == tmReady {
+						idle = append(idle, i)
+					}
+				}
+				if len(idle) < 2 {
+					rt.Skip("fewer than two idle timers")
+				}
+				perm := rapid.Permutation(idle).Draw(rt, "pair")
+				a, b := perm[0], perm[1]
+				d := rapid.IntRange(1, 3).Draw(rt, "d")
+				kind := rapid.SampledFrom([]string{"rearm", "rearm", "cancel", "close", "cancel+immediate"}).Draw(rt, "what")
+				w.schedule(b, false, d, []hop{{Kind: kind, Target: a, Delay: rapid.IntRange(2, 12).Draw(rt, "newDelay")}}, "top")
+				w.schedule(a, rapid.Bool().Draw(rt, "aRepeats"), d+1, w.genProgram("pa", a), "top")
+				time.Sleep(time.Duration(d+3) * time.Millisecond)
+				w.log("sleep(%d)", d+3)
+				w.log("poll")
+				poll()
 			},
 			"sleep": func(rt *rapid.T) {
 				ms := rapid.IntRange(1, 12).Draw(rt, "ms")
